@@ -207,29 +207,60 @@ inductive DVal where
   | arr (vs : List DVal) | hsh (es : List (DVal × DVal)) | bin (bs : List UInt8)
   deriving Repr, Inhabited
 
+/-- the kinds the type switches of proto/convert.go distinguish -/
+inductive PKind where
+  | bool | flt | int | str | undef | arr | hsh | bin | ref | other (src : String)
+  deriving DecidableEq, Repr, Inhabited
+
+/-- which kinds each type switch handles explicitly (regenerated from the source); any other kind falls to the
+    switch's `default:` arm, which yields undef -/
+structure PBArms where
+  toPB : List PKind
+  fromPB : List PKind
+  consume : List PKind
+  deriving Repr, Inhabited
+
+def DVal.kind : DVal → PKind
+  | .undef => .undef | .bool _ => .bool | .int _ => .int | .flt _ => .flt | .str _ => .str
+  | .arr _ => .arr | .hsh _ => .hsh | .bin _ => .bin
+
+def PB.kind : PB → PKind
+  | .undef => .undef | .bool _ => .bool | .int _ => .int | .flt _ => .flt | .str _ => .str
+  | .arr _ => .arr | .hsh _ => .hsh | .bin _ => .bin | .ref _ => .ref
+
 mutual
-def toPB : DVal → PB
-  | .undef => .undef | .bool b => .bool b | .int i => .int i | .flt f => .flt f | .str s => .str s
-  | .bin bs => .bin bs
-  | .arr vs => .arr (toPBs vs)
-  | .hsh es => .hsh (toPBes es)
-def toPBs : List DVal → List PB
-  | [] => [] | v :: vs => toPB v :: toPBs vs
-def toPBes : List (DVal × DVal) → List (PB × PB)
-  | [] => [] | (k, v) :: es => (toPB k, toPB v) :: toPBes es
+/-- `ToPBData` -/
+def toPB (a : PBArms) : DVal → PB
+  | .undef => .undef
+  | .bool b => if PKind.bool ∈ a.toPB then .bool b else .undef
+  | .int i => if PKind.int ∈ a.toPB then .int i else .undef
+  | .flt f => if PKind.flt ∈ a.toPB then .flt f else .undef
+  | .str s => if PKind.str ∈ a.toPB then .str s else .undef
+  | .bin bs => if PKind.bin ∈ a.toPB then .bin bs else .undef
+  | .arr vs => if PKind.arr ∈ a.toPB then .arr (toPBs a vs) else .undef
+  | .hsh es => if PKind.hsh ∈ a.toPB then .hsh (toPBes a es) else .undef
+def toPBs (a : PBArms) : List DVal → List PB
+  | [] => [] | v :: vs => toPB a v :: toPBs a vs
+def toPBes (a : PBArms) : List (DVal × DVal) → List (PB × PB)
+  | [] => [] | (k, v) :: es => (toPB a k, toPB a v) :: toPBes a es
 end
 
 mutual
-/-- `FromPBData` has no arm for binary and reference: both fall to `default` (undef) -/
-def fromPB : PB → DVal
-  | .undef => .undef | .bool b => .bool b | .int i => .int i | .flt f => .flt f | .str s => .str s
-  | .bin _ => .undef | .ref _ => .undef
-  | .arr vs => .arr (fromPBs vs)
-  | .hsh es => .hsh (fromPBes es)
-def fromPBs : List PB → List DVal
-  | [] => [] | v :: vs => fromPB v :: fromPBs vs
-def fromPBes : List (PB × PB) → List (DVal × DVal)
-  | [] => [] | (k, v) :: es => (fromPB k, fromPB v) :: fromPBes es
+/-- `FromPBData` (on the current tree it has no arm for binary and reference: both fall to `default`) -/
+def fromPB (a : PBArms) : PB → DVal
+  | .undef => .undef
+  | .bool b => if PKind.bool ∈ a.fromPB then .bool b else .undef
+  | .int i => if PKind.int ∈ a.fromPB then .int i else .undef
+  | .flt f => if PKind.flt ∈ a.fromPB then .flt f else .undef
+  | .str s => if PKind.str ∈ a.fromPB then .str s else .undef
+  | .bin bs => if PKind.bin ∈ a.fromPB then .bin bs else .undef
+  | .ref _ => .undef
+  | .arr vs => if PKind.arr ∈ a.fromPB then .arr (fromPBs a vs) else .undef
+  | .hsh es => if PKind.hsh ∈ a.fromPB then .hsh (fromPBes a es) else .undef
+def fromPBs (a : PBArms) : List PB → List DVal
+  | [] => [] | v :: vs => fromPB a v :: fromPBs a vs
+def fromPBes (a : PBArms) : List (PB × PB) → List (DVal × DVal)
+  | [] => [] | (k, v) :: es => (fromPB a k, fromPB a v) :: fromPBes a es
 end
 
 /-- events with the scalars protobuf carries -/
@@ -239,16 +270,16 @@ inductive PEv where
   deriving Repr, Inhabited
 
 mutual
-/-- `ConsumePBData` -/
-def consumePB : PB → PEv
-  | .arr vs => .arr (consumePBs vs)
-  | .hsh es => .hsh (consumePBes es)
-  | .ref n => .ref n
-  | s => .v s
-def consumePBs : List PB → List PEv
-  | [] => [] | v :: vs => consumePB v :: consumePBs vs
-def consumePBes : List (PB × PB) → List PEv
-  | [] => [] | (k, v) :: es => consumePB k :: consumePB v :: consumePBes es
+/-- `ConsumePBData`: a kind without an arm is delivered as undef -/
+def consumePB (a : PBArms) : PB → PEv
+  | .arr vs => if PKind.arr ∈ a.consume then .arr (consumePBs a vs) else .v .undef
+  | .hsh es => if PKind.hsh ∈ a.consume then .hsh (consumePBes a es) else .v .undef
+  | .ref n => if PKind.ref ∈ a.consume then .ref n else .v .undef
+  | s => if s.kind ∈ a.consume ∨ s.kind = .undef then .v s else .v .undef
+def consumePBs (a : PBArms) : List PB → List PEv
+  | [] => [] | v :: vs => consumePB a v :: consumePBs a vs
+def consumePBes (a : PBArms) : List (PB × PB) → List PEv
+  | [] => [] | (k, v) :: es => consumePB a k :: consumePB a v :: consumePBes a es
 end
 
 /-- pair up the children of a hash the way `protoConsumer.AddHash` does; `none` = index out of range -/
